@@ -54,6 +54,8 @@ structure DState where
   /-- C02 monitor: per group, the time at which the implementation was last seen to get a cloud
       increase accepted in this controller lifetime. -/
   armed : List (String × Int) := []
+  /-- provider-level sequences (awsops): the cached group the model's previous operation left behind -/
+  awsG : Option PGroup := none
 
 /-- Did this observed journal get a cloud increase accepted? -/
 def acceptedRaise (j : Journal) : Bool :=
@@ -214,13 +216,17 @@ def handleLine (ds : DState) (line : String) : DState × Json :=
       | .error e => (ds, Json.mkObj [("error", toJson ("scan: " ++ e))])
       | .ok (sc : ScanCase) => handleScan ds sc
     | .ok other =>
+      if other == "awsop" then
+        let (r, g') := handleAwsOp ds.awsG j
+        let detail := if r.diffs.isEmpty && r.mon.isEmpty then [] else [("model", r.model)]
+        ({ ds with awsG := g' }, Json.mkObj ([("diffs", toJson r.diffs), ("mon", toJson r.mon), ("branches", toJson ([] : List String)), ("nt", toJson r.tag)] ++ detail))
+      else
       let out : Option OpOut := match other with
         | "arith" => some (handleArith j)
         | "taintop" => some (handleTaintOp j)
         | "filter" => some (handleFilter j)
         | "nodefilter" => some (handleNodeFilter j)
         | "resources" => some (handleResources j)
-        | "awsop" => some (handleAwsOp j)
         | "validate" => some (handleValidate j)
         | "decode" => some (handleDecode j)
         | _ => none
